@@ -75,18 +75,25 @@ structure Parsed (φ : Type) where
   cur : Nat := 0
 deriving Repr
 
+/-- `d[key] = value` on an insertion-ordered `dict`: an existing key keeps its position and gets the new
+value, a new key is appended. -/
+def dictSet {φ : Type} [DecidableEq φ] (d : List (φ × Nat × Nat)) (f : φ) (v : Nat × Nat) : List (φ × Nat × Nat) :=
+  if d.any (fun x => x.1 == f) then d.map fun x => if x.1 = f then (f, v) else x else d ++ [(f, v)]
+
 /-- one iteration of the `for idx, filename in enumerate(filenames)` loop; `file.2 = none` is a file
-whose opening raises `OSError` (logged and skipped by `continue`). -/
-def parseStep {φ : Type} (filt : Option PySliceT) (st : Parsed φ) (file : φ × Option Nat) : Parsed φ :=
+whose opening raises `OSError` (logged and skipped by `continue`).
+`self.volume_indices[filename] = range(cur, cur + num)` is a `dict` assignment. -/
+def parseStep {φ : Type} [DecidableEq φ] (filt : Option PySliceT) (st : Parsed φ) (file : φ × Option Nat) :
+    Parsed φ :=
   match file.2 with
   | none => st
   | some n =>
     let num := numSlices filt n
     { data := st.data ++ (sliceList filt n).map fun s => (file.1, s)
-      vols := st.vols ++ [(file.1, st.cur, st.cur + num)]
+      vols := dictSet st.vols file.1 (st.cur, st.cur + num)
       cur := st.cur + num }
 
-def parseFilenames {φ : Type} (files : List (φ × Option Nat)) (filt : Option PySliceT) : Parsed φ :=
+def parseFilenames {φ : Type} [DecidableEq φ] (files : List (φ × Option Nat)) (filt : Option PySliceT) : Parsed φ :=
   files.foldl (parseStep filt) {}
 
 /-- what `slice_data=` was given: nothing / falsy, a `slice`, or some other truthy object -/
@@ -103,7 +110,7 @@ deriving Repr, DecidableEq
 /-- `parse_filenames_data` with the exceptions it lets escape: a non-slice truthy filter raises
 `NotImplementedError`, `slice.indices` raises `ValueError` for step 0 — both only once a readable
 file is reached. -/
-def parseChecked {φ : Type} (files : List (φ × Option Nat)) (f : FilterArg) : Except Err (Parsed φ) :=
+def parseChecked {φ : Type} [DecidableEq φ] (files : List (φ × Option Nat)) (f : FilterArg) : Except Err (Parsed φ) :=
   let anyReadable := files.any fun x => x.2.isSome
   match f with
   | .none => .ok (parseFilenames files none)
@@ -180,6 +187,116 @@ def h5Item {φ : Type} (P : Parsed φ) (nOf : φ → Nat) (c : Nat) (idx : Int) 
   match pyIndex P.data idx with
   | .error e => .error e
   | .ok (f, s) => .ok (f, s, sliceStack c (nOf f) s)
+
+/-- `pass_h5s` / `sensitivity_maps`: the same slice (same window) of the file with the same name in
+another directory; `nX f` is the number of slices of *that* file. -/
+def h5ItemExtra {φ : Type} (P : Parsed φ) (nX : φ → Nat) (c : Nat) (idx : Int) : Except Err (List Entry) :=
+  match pyIndex P.data idx with
+  | .error e => .error e
+  | .ok (f, s) => .ok (sliceStack c (nX f) s)
+
+/-! ## which files a dataset is built from (`H5SliceData.__init__`, `CMRxReconDataset.__init__`) -/
+
+/-- insertion sort w.r.t. `le` (stands for `sorted(...)`; only used when the code sorts the listing) -/
+def insertSorted {φ : Type} (le : φ → φ → Bool) (x : φ) : List φ → List φ
+  | [] => [x]
+  | y :: ys => if le x y then x :: y :: ys else y :: insertSorted le x ys
+
+def sortFiles {φ : Type} (le : φ → φ → Bool) : List φ → List φ
+  | [] => []
+  | x :: xs => insertSorted le x (sortFiles le xs)
+
+/-- the constructor arguments that select files -/
+structure Selection (φ : Type) where
+  /-- `root.glob("*.h5")` in the order the operating system lists the directory -/
+  listing : List φ
+  /-- `filenames_filter` -/
+  filter : Option (List φ)
+  /-- `filenames_lists` (each `.lst` file read and joined with `data_root`) -/
+  lists : Option (List (List φ))
+  /-- `filenames_lists_root is not None` -/
+  listsRootGiven : Bool
+  /-- `regex_filter` given; `regexOk f` = `re.match(regex_filter, str(f))` succeeds -/
+  hasRegex : Bool
+  regexOk : φ → Bool
+
+/-- the `filenames` handed to `parse_filenames_data`: `filenames_filter` wins over `filenames_lists`
+wins over the directory listing; then the regex filter.  `sortListing`: whether the code sorts the
+directory listing (the current tree does not: `list(self.root.glob("*.h5"))`). -/
+def selectFiles {φ : Type} (sortListing : Bool) (le : φ → φ → Bool) (sel : Selection φ) : Except Err (List φ) :=
+  let base : Except Err (List φ) :=
+    match sel.filter with
+    | some fs => .ok fs
+    | none =>
+      match sel.lists with
+      | some ls => if sel.listsRootGiven then .ok ls.flatten else .error .valueError
+      | none => .ok (if sortListing then sortFiles le sel.listing else sel.listing)
+  match base with
+  | .error e => .error e
+  | .ok fs => .ok (if sel.hasRegex then fs.filter sel.regexOk else fs)
+
+/-- the current tree -/
+def listingSortedCurrent : Bool := false
+
+/-- the dataset classes built on `H5SliceData` -/
+inductive H5Class where
+  | h5 | fastmri | calgary
+deriving Repr, DecidableEq
+
+/-- which `slice_data` / `kspace_context` reach `H5SliceData.__init__`:
+`FastMRIDataset` and `CalgaryCampinasDataset` do not hand `kspace_context` / `slice_data` keyword arguments on
+(they are swallowed by `**kwargs`); `CalgaryCampinasDataset` passes `slice(50, -50) if crop_outer_slices else None`. -/
+def classParams (cls : H5Class) (crop : Bool) (sliceArg : FilterArg) (ctxArg : Nat) : FilterArg × Nat :=
+  match cls with
+  | .h5 => (sliceArg, ctxArg)
+  | .fastmri => (.none, 0)
+  | .calgary => (if crop then .slice ⟨some 50, some (-50), none⟩ else .none, 0)
+
+/-- construction of an `H5SliceData`-based dataset: select the files, look up their slice counts
+(`nOf f = none`: missing / unreadable), parse. -/
+def buildH5 {φ : Type} [DecidableEq φ] (sortListing : Bool) (le : φ → φ → Bool) (sel : Selection φ)
+    (nOf : φ → Option Nat) (F : FilterArg) : Except Err (Parsed φ) :=
+  match selectFiles sortListing le sel with
+  | .error e => .error e
+  | .ok fs => parseChecked (fs.map fun f => (f, nOf f)) F
+
+/-! ## `CMRxReconDataset`: files of shape `(a, b, …)` (slices × time frames) -/
+
+inductive CmrContext where
+  | none | slice | time
+deriving Repr, DecidableEq
+
+/-- `num_slices`: `np.prod(kspace_shape[:2])`, `kspace_shape[0]`, `kspace_shape[1]` -/
+def cmrNumSlices (ctx : CmrContext) (a b : Nat) : Nat :=
+  match ctx with
+  | .none => a * b
+  | .slice => a
+  | .time => b
+
+/-- `[(k, l) for k in range(shape[0]) for l in range(shape[1])]` -/
+def cmrPairs (a b : Nat) : List (Nat × Nat) :=
+  (List.range a).flatMap fun k => (List.range b).map fun l => (k, l)
+
+/-- the `(slice, frame)` positions of the file that make up item `s`, in the order they appear along the
+context axis: `inds[slice_no]` (the `enumerate` dict), `data[key][slice_no]`, `data[key][:, slice_no]`. -/
+def cmrBlock (ctx : CmrContext) (a b s : Nat) : Option (List (Nat × Nat)) :=
+  match ctx with
+  | .none => (cmrPairs a b)[s]?.map fun p => [p]
+  | .slice => if s < a then some ((List.range b).map fun l => (s, l)) else none
+  | .time => if s < b then some ((List.range a).map fun k => (k, s)) else none
+
+/-- `CMRxReconDataset.parse_filenames_data` is the same fold without a slice filter -/
+def cmrParse {φ : Type} [DecidableEq φ] (ctx : CmrContext) (files : List (φ × Option (Nat × Nat))) : Parsed φ :=
+  parseFilenames (files.map fun x => (x.1, x.2.map fun ab => cmrNumSlices ctx ab.1 ab.2)) none
+
+def cmrItem {φ : Type} (P : Parsed φ) (ctx : CmrContext) (shapeOf : φ → Nat × Nat) (idx : Int) :
+    Except Err (φ × Nat × List (Nat × Nat)) :=
+  match pyIndex P.data idx with
+  | .error e => .error e
+  | .ok (f, s) =>
+    match cmrBlock ctx (shapeOf f).1 (shapeOf f).2 s with
+    | some blk => .ok (f, s, blk)
+    | none => .error .indexError
 
 /-! ## `ConcatDataset` -/
 
